@@ -131,7 +131,10 @@ def run_check(prop, tier, seed, keep=False):
         os.makedirs(os.path.join(VERIF, 'replays'), exist_ok=True)
         for fn in os.listdir(os.path.join(VERIF, 'replays')):
             if fn.startswith(prop + '-'):
-                os.remove(os.path.join(VERIF, 'replays', fn))
+                try:
+                    os.remove(os.path.join(VERIF, 'replays', fn))
+                except OSError:
+                    pass        # (another run of the same check removed it first)
         for si, ((path, meta), (rej, res)) in enumerate(zip(shards, results)):
             n_events += meta['n']
             hashes.update(meta['nt_hashes'])
